@@ -13,8 +13,9 @@ From PngV Require Import Model.Reader Proofs.ReaderProofs.
 
 (* a row call *)
 Theorem C13_row_call_delivers_the_cursor_row :
-  forall (im : image) (vis : nat) (s s' : rstate) (k j : nat) (d : delivered),
-       step im vis s ORow = (s', RRow k j, d) ->
+  forall (im : image) (vis : nat) (s s' : rstate) (k j : nat) (d : delivered) (o : op),
+       is_row_op o ->
+       step im vis s o = (s', RRow k j, d) ->
        k = cur s /\
        next_row s = Some j /\
        d = [(k, j)] /\ cur s' = cur s /\ next_row s' = (if S j <? nrows im (cur s) then Some (S j) else None).
@@ -27,8 +28,8 @@ Theorem C13_frame_call_delivers_the_remaining_rows :
        step im vis s OFrame = (s', r, d) ->
        exists j0 : nat,
          d = map (fun i : nat => (cur s', i)) (seq j0 (length d)) /\
-         (flushed s = false -> j0 = pos im s) /\
-         (flushed s = true -> d <> [] -> j0 = 0) /\
+         (advancing s = false -> j0 = pos im s) /\
+         (advancing s = true -> d <> [] -> j0 = 0) /\
          (forall kk : nat,
           r = RFrame kk ->
           kk = cur s' /\ j0 + length d = nrows im (cur s') /\ next_row s' = None /\ flushed s' = true) /\
@@ -57,6 +58,21 @@ Theorem C13_cursor_invariant_preserved :
        valid im -> cursor_ok im s -> cursor_ok im (fst (fst (step im vis s o))).
 Proof. exact step_preserves_cursor_ok. Qed.
 
+(* a frame call made while rows of the current frame are outstanding never leaves that frame, whether or not its data sequence was already flushed (the repaired defect) *)
+Theorem C13_frame_call_in_mid_frame_stays_on_the_frame :
+  forall (im : image) (vis : nat) (s s' : rstate) (r : res) (d : delivered) (j : nat),
+       next_row s = Some j ->
+       step im vis s OFrame = (s', r, d) -> cur s' = cur s /\ (forall kk : nat, r = RFrame kk -> kk = cur s).
+Proof. exact frame_call_in_mid_frame_stays_on_the_frame. Qed.
+
+(* non-vacuity: the early-flush state is reachable in the model and the frame call completes the frame *)
+Theorem C13_early_flush_example :
+  let im := {| rows := [5; 5]; declared := 2; has_fctl := fun _ : nat => true |} in
+       snd (run im (reader_init im) [(ORow, 10); (ORow, 10); (ORowF, 10); (OFrame, 10); (OFrame, 10)]) =
+       [(RRow 0 0, [(0, 0)]); (RRow 0 1, [(0, 1)]); (RRow 0 2, [(0, 2)]); (RFrame 0, [(0, 3); (0, 4)]);
+        (RFrame 1, [(1, 0); (1, 1); (1, 2); (1, 3); (1, 4)])].
+Proof. exact early_flush_then_frame_call. Qed.
+
 (* non-vacuity: APNG with frames of 3 and 2 rows; two row calls, then next_frame finishes frame 0 with exactly the last row *)
 Definition ex_im := mk_image [3; 2] 2 (fun _ => true).
 Example C13_nonvacuous :
@@ -68,3 +84,5 @@ Print Assumptions C13_frame_call_delivers_the_remaining_rows.
 Print Assumptions C13_rows_of_a_call_are_consecutive.
 Print Assumptions C13_cursor_invariant_initially.
 Print Assumptions C13_cursor_invariant_preserved.
+Print Assumptions C13_frame_call_in_mid_frame_stays_on_the_frame.
+Print Assumptions C13_early_flush_example.
